@@ -488,4 +488,163 @@ Proof.
       split; [left; reflexivity|]. left. split; [reflexivity|exact Z1].
 Qed.
 
+(* ------------------------------------------------------------------ the event loop *)
+(* regime: EITHER no flush has skipped merge_all so far (F = 0) and none can at the present capacity, because W is a
+   duplicate-free list of live keys with capacity - |W| <= limit, and M is at most the length `min` will have when
+   that stops being true; OR `min` already has M slots *)
+Definition regime_k (limit M : Z) (c : coo) (F : Z) : Prop :=
+  (F = 0 /\ exists W fuel, NoDup W /\ incl W (keys (live c)) /\ cap c <= limit + zlen W /\
+                           M <= driver_mlen fuel limit (cap c) (zlen (mn c)))
+  \/ M <= zlen (mn c).
+
+Lemma regime_k_F limit M c F : regime_k limit M c F -> F = 0 \/ M <= zlen (mn c).
+Proof. intros [(H & _)|H]; [left; exact H|right; exact H]. Qed.
+
+Lemma appends_k limit M Etot : forall evs c F E,
+  1 <= limit -> VInv Q limit c F E -> ind c <= cap c - 2 -> 20 <= cap c -> keys_nonneg Q evs ->
+  6 < 2 ^ (zlen (mn c) - 1) -> regime_k limit M c F ->
+  E + zlen evs <= Etot -> 8 * Etot + 6 * limit < limit * 2 ^ (M - 1) ->
+  exists c' F',
+    appends limit c evs = Ok c' /\ VInv Q limit c' F' (E + zlen evs) /\ ind c' <= cap c' - 2 /\ 20 <= cap c' /\
+    6 < 2 ^ (zlen (mn c') - 1) /\ regime_k limit M c' F' /\
+    (forall k, sumby (live c') k = sumby (live c) k + sumby evs k) /\ same_keys (live c') (live c ++ evs).
+Proof.
+  induction evs as [|ev t IH]; intros c F E Hl HV Hic Hcap Hk H6 HR HE HB.
+  - exists c, F. replace (E + zlen (@nil entry)) with E by (zl; lia).
+    split; [reflexivity|]. split; [exact HV|]. split; [exact Hic|]. split; [exact Hcap|]. split; [exact H6|].
+    split; [exact HR|]. split; [intros k; simpl; lia|]. rewrite app_nil_r. apply same_keys_refl.
+  - zl. inversion Hk as [|? ? Hev Ht]; subst. pose proof (zlen_nonneg t) as Lt.
+    destruct (VInv_potential Q limit c F E HV) as [HP HF].
+    assert (Hroom : 4 * F + 6 < 2 ^ (zlen (mn c) - 1)).
+    { apply (budget_room limit M (zlen (mn c)) F E Etot); auto; [lia|apply (regime_k_F limit), HR]. }
+    destruct (coo_append_k limit c F E ev Hl HV Hic Hcap Hev Hroom) as (c1 & F1 & E1 & V1 & J1 & C1 & U1 & KK & FF & GG).
+    simpl appends. rewrite E1. cbn [bind].
+    pose proof (grow_min_size_ge (zlen (mn c)) (zlen_nonneg (mn c))) as Hgm.
+    assert (Hz : zlen (mn c) <= zlen (mn c1)).
+    { destruct GG as [(_ & G)|(_ & _ & G & _)]; lia. }
+    assert (H61 : 6 < 2 ^ (zlen (mn c1) - 1)).
+    { assert (1 <= zlen (mn c)).
+      { destruct (Z_lt_le_dec (zlen (mn c)) 1); [|lia]. rewrite Z.pow_neg_r in H6 by lia. lia. }
+      pose proof (pow2_mono (zlen (mn c) - 1) (zlen (mn c1) - 1) ltac:(lia)). lia. }
+    assert (Hi1 : 0 <= ind c1).
+    { destruct V1 as ((S1 & _) & _). pose proof (so_ind Q c1 S1). pose proof (Z.abs_nonneg (nthZ (mn c1) 0)). lia. }
+    assert (HR1 : regime_k limit M c1 F1).
+    { destruct HR as [(R0 & W & fuel & RN & RI & RC & RM)|R]; [|right; lia].
+      assert (F1 = 0).
+      { destruct FF as [->|(_ & FF)]; [exact R0|]. specialize (FF W RN RI). lia. }
+      assert (RI1 : incl W (keys (live c1))).
+      { intros k Hkk. apply KK. rewrite keys_app. apply in_or_app. left. apply RI, Hkk. }
+      destruct GG as [(G1 & G2)|(_ & G1 & G2 & Gs & Gi)].
+      - left. split; [assumption|]. exists W, fuel. rewrite G1, G2.
+        split; [exact RN|]. split; [exact RI1|]. split; [exact RC|exact RM].
+      - destruct fuel as [|f].
+        + right. simpl in RM. lia.
+        + cbn [driver_mlen] in RM.
+          destruct (grow_size limit (cap c) <=? limit + cdiv (19 * cap c) 20) eqn:T.
+          * apply Z.leb_le in T. left. split; [assumption|]. exists (keys (live c1)), f.
+            split; [apply ssorted_NoDup, Gs|]. split; [apply incl_refl|].
+            rewrite zlen_keys, zlen_live by lia.
+            pose proof (cdiv_19_20 (cap c) (ind c1) Gi).
+            split; [lia|]. rewrite G1, G2. exact RM.
+          * right. rewrite G2. exact RM. }
+    destruct (IH c1 F1 (E + 1)) as (c' & F' & E' & V' & J' & C' & H6' & R' & U' & K'); auto; [lia|].
+    exists c', F'. split; [exact E'|].
+    replace (E + (1 + zlen t)) with (E + 1 + zlen t) by lia.
+    split; [exact V'|]. split; [exact J'|]. split; [exact C'|]. split; [exact H6'|]. split; [exact R'|].
+    split; [intros k; rewrite U', U1; simpl; lia|].
+    eapply same_keys_trans; [exact K'|].
+    replace (live c ++ ev :: t) with ((live c ++ [ev]) ++ t) by (rewrite <- app_assoc; reflexivity).
+    apply same_keys_app; [exact KK|apply same_keys_refl].
+Qed.
+
+(* ------------------------------------------------------------------ the drivers' last two calls *)
+Lemma finish_k c G :
+  Inv Q c G -> ind c <= cap c - 1 -> G + 2 < 2 ^ (zlen (mn c) - 1) ->
+  exists c', finish c = Ok c' /\ stack_ok Q c' /\ (forall k, sumby (live c') k = sumby (live c) k) /\
+             ssorted (live c') /\ same_keys (live c') (live c).
+Proof.
+  intros HI Hic HG.
+  destruct (csd_ok Q c) as (c1 & E1 & P1); [apply HI|lia|apply (Inv_room Q c G HI); lia|].
+  assert (K1 : same_keys (live c1) (live c)) by (apply (csd_keys Q c c1); [apply HI|lia|exact E1]).
+  pose proof (op_step Q c c1 G HI P1) as I1.
+  destruct P1 as (S1 & Q1 & Q2 & Q3 & Q4 & Q5 & _).
+  destruct (ma_ok Q c1) as (c2 & E2 & P2 & Hs); [exact S1|lia|apply (Inv_room Q c1 (G + 1) I1); rewrite Q2; lia|exact Q4|].
+  assert (K2 : same_keys (live c2) (live c1)) by (apply (ma_keys Q c1 c2 S1); [lia|exact E2]).
+  destruct P2 as (S2 & R1 & R2 & R3 & R4 & R5 & _).
+  exists c2. unfold finish. rewrite E1. cbn [bind]. split; [exact E2|]. split; [exact S2|].
+  split; [intros k; rewrite R5, Q5; reflexivity|]. split; [exact Hs|].
+  eapply same_keys_trans; [exact K2|exact K1].
+Qed.
+
+(* ------------------------------------------------------------------ the whole run *)
+(* M = a length `min` is known to have when the first flush skips merge_all:
+     buffer allocated at most `limit` long: driver_mlen (any fuel); longer: the allocated length *)
+Definition start_ok (limit n mlen M : Z) : Prop :=
+  (n <= limit /\ exists fuel, M <= driver_mlen fuel limit n mlen) \/ M <= mlen.
+
+Theorem run_total_k limit n mlen M evs :
+  1 <= limit -> 20 <= n -> 4 <= mlen -> keys_nonneg Q evs -> start_ok limit n mlen M ->
+  8 * zlen evs + 6 * limit < limit * 2 ^ (M - 1) ->
+  exists s, run limit n mlen evs = Ok s /\ (forall k, denote s k = sumby evs k) /\
+            StronglySorted Z.lt (map e_key (live s)) /\ keys_nonneg Q (live s) /\ same_keys (live s) evs.
+Proof.
+  intros Hl Hn Hm Hk HS HB.
+  pose proof (init_VInv Q limit n mlen ltac:(lia) ltac:(lia)) as V0.
+  assert (Z0 : zlen (mn (init n mlen)) = mlen) by (simpl; zl; lia).
+  assert (C0 : cap (init n mlen) = n) by (unfold cap; simpl; zl; lia).
+  assert (L0 : live (init n mlen) = []) by reflexivity.
+  assert (H6 : 6 < 2 ^ (mlen - 1)).
+  { pose proof (pow2_mono 3 (mlen - 1) ltac:(lia)). change (2 ^ 3) with 8 in *. lia. }
+  destruct (appends_k limit M (zlen evs) evs (init n mlen) 0 0) as (c & F & E & V & J & C & H6' & R & U & K); auto;
+    try (rewrite ?C0, ?Z0; simpl ind; lia).
+  { unfold regime_k. rewrite C0, Z0. destruct HS as [(Hnl & fuel & HM)|HM]; [left|right; exact HM].
+    split; [reflexivity|]. exists [], fuel. split; [constructor|]. split; [intros k []|].
+    split; [zl; lia|exact HM]. }
+  destruct (VInv_potential Q limit c F _ V) as [HP HF].
+  assert (Hroom : 4 * F + 6 < 2 ^ (zlen (mn c) - 1)).
+  { apply (budget_room limit M (zlen (mn c)) F (0 + zlen evs) (zlen evs)); auto; [lia|apply (regime_k_F limit), R]. }
+  destruct V as (I & _ & _).
+  destruct (finish_k c (4 * (F + 1))) as (s & Ef & Sf & Uf & Ss & Ks); [exact I|lia|lia|].
+  exists s. unfold run. rewrite E. cbn [bind]. split; [exact Ef|].
+  split; [intros k; unfold denote; rewrite Uf, U; simpl; lia|]. split; [exact Ss|]. split; [apply Sf|].
+  eapply same_keys_trans; [exact Ks|]. rewrite L0 in K. exact K.
+Qed.
+
 End Driver.
+
+(* ------------------------------------------------------------------ corollaries *)
+(* the drivers' allocation: |min| = 2 * ceil(log2 capacity) >= 10 >= 4 for capacity >= 20 *)
+Lemma ceil_log2_fuel_ge fuel : forall n p acc, acc <= ceil_log2_fuel fuel n p acc.
+Proof.
+  induction fuel as [|f IH]; intros n p acc; cbn [ceil_log2_fuel]; [lia|].
+  destruct (n <=? p); [lia|]. specialize (IH n (2 * p) (acc + 1)). lia.
+Qed.
+
+Lemma ceil_log2_fuel_step f n p acc :
+  p < n -> ceil_log2_fuel (S f) n p acc = ceil_log2_fuel f n (2 * p) (acc + 1).
+Proof. intros H. cbn [ceil_log2_fuel]. replace (n <=? p) with false by (symmetry; apply Z.leb_gt; lia). reflexivity. Qed.
+
+Lemma default_mlen_ge n : 17 <= n -> 10 <= 2 * ceil_log2 n.
+Proof.
+  intros H. unfold ceil_log2.
+  assert (5 <= ceil_log2_fuel 64 n 1 0); [|lia].
+  rewrite !ceil_log2_fuel_step by lia || fail.
+  etransitivity; [|apply ceil_log2_fuel_ge]. lia.
+Qed.
+
+Theorem run_cells_k limit n mlen M mul evs :
+  1 <= limit -> 20 <= n -> 4 <= mlen -> start_ok limit n mlen M ->
+  8 * zlen evs + 6 * limit < limit * 2 ^ (M - 1) ->
+  Forall (fun e => 0 <= e_key e /\ wf_ev mul (rck e)) evs ->
+  exists s, run limit n mlen evs = Ok s /\
+            (forall r c, 0 <= c < mul -> cell (live s) r c = cell evs r c) /\
+            StronglySorted Z.lt (map e_key (live s)) /\ same_keys (live s) evs.
+Proof.
+  intros Hl Hn Hm HS HB Hev.
+  destruct (run_total_k (wf_ev mul) limit n mlen M evs Hl Hn Hm Hev HS HB) as (s & E & D & S & K & KK).
+  exists s. split; [exact E|]. split; [|split; [exact S|exact KK]].
+  intros r c Hc. rewrite (cell_sumby mul (live s) r c Hc), (cell_sumby mul evs r c Hc).
+  - apply D.
+  - eapply Forall_impl; [|exact Hev]. simpl. intros e He. apply He.
+  - eapply Forall_impl; [|exact K]. simpl. intros e He. apply He.
+Qed.
